@@ -114,9 +114,15 @@ def check(ctx):
     # ------------------------------------------------- C05.5 / C05.6 / C05.8
     apps = [e for e in rm.of_kind("call")
             if e.data.get("mutates_recv") and e.data["name"] == ".append"]
-    ctx.require(len(apps) >= 2, "append of matching indices not found "
-                "(unknown idiom)")
-    idx_terms = [e.data["args"][0] for e in apps]
+    pair_app = len(apps) == 1 and apps[0].data["args"] and \
+        apps[0].data["args"][0].op == "tuple" and \
+        len(apps[0].data["args"][0].args) == 2
+    ctx.require(len(apps) >= 2 or pair_app, "append of matching indices not "
+                "found (unknown idiom)")
+    # accepted matches are either two lists growing in parallel or one list
+    # of (own index, counterpart index) pairs
+    idx_terms = list(apps[0].data["args"][0].args) if pair_app else \
+        [e.data["args"][0] for e in apps]
     # the two appended values: own index (index / elem of stamps_1) and the
     # counterpart index
     cp = [t for t in idx_terms if any(is_call_to(x, "numpy.argmin",
@@ -171,7 +177,7 @@ def check(ctx):
                f"{[(fmt(a), r, fmt(b)) for a, r, b in cmps]}",
                key="C05.6:only-condition")
     # own index appended together with the counterpart, same condition
-    ok = len({e.live for e in apps}) == 1 and len(apps) == 2
+    ok = pair_app or (len({e.live for e in apps}) == 1 and len(apps) == 2)
     ctx.ob("C05.3", apps[0], ok,
            "both index lists grow together (same accept condition)" if ok
            else "the two index lists are appended under different "
@@ -179,8 +185,9 @@ def check(ctx):
     # return order: (indices of stamps_1, indices of stamps_2)
     ret = rm.ret
     ok = ret.op == "tuple" and len(ret.args) == 2 and \
-        _appended(ret.args[1]) is idx2 and _appended(ret.args[0]) is not None
-    own = _appended(ret.args[0]) if ret.op == "tuple" else None
+        _component(ret.args[1]) is idx2 and \
+        _component(ret.args[0]) is not None
+    own = _component(ret.args[0]) if ret.op == "tuple" else None
     ok = ok and own is not None and (own.op == "index" or (
         own.op == "elem"))
     ctx.ob("C05.3", fm, ok,
@@ -194,7 +201,8 @@ def check(ctx):
     post = [e for e in rm.of_kind("call")
             if e.idx > max(a.idx for a in apps) and not e.loops and
             (e.data.get("name") or "") not in ("builtins.len",)]
-    has_mech = bool(carried) or bool(post)
+    filtered = [x for x in ret.walk() if x.op == "comp" and x.args[3]]
+    has_mech = bool(carried) or bool(post) or bool(filtered)
     ctx.ob("C05.8", fm, has_mech,
            "a uniqueness mechanism exists (loop-carried dependence or "
            "post-pass)" if has_mech else
@@ -360,6 +368,24 @@ def _appended(t: T):
     return None
 
 
+def _component(t: T):
+    """the index stream a returned list consists of: the value appended to
+    it, or component j of the pairs appended to the list it is an
+    unfiltered projection of"""
+    if t.op == "comp" and len(t.args[2]) == 1 and not t.args[3]:
+        it, lid = t.args[2][0]
+        elt = t.args[1]
+        if elt.op == "sub" and elt.args[0] is T("elem", it, lid) and \
+                tm.is_const(elt.args[1]) and elt.args[1].args[1] in (0, 1):
+            pair = _appended(it)
+            if pair is not None and pair.op == "tuple" and \
+                    len(pair.args) == 2:
+                return pair.args[elt.args[1].args[1]]
+        return None
+    v = _appended(t)
+    return None if v is None or v.op == "tuple" else v
+
+
 VARIANTS = [
     dict(name="returned-pair-swapped", file="evo/core/sync.py",
          find="    traj_1 = traj_short if snd_longer else traj_long\n"
@@ -369,6 +395,20 @@ VARIANTS = [
     dict(name="offset-sign-not-flipped", file="evo/core/sync.py",
          find="        offset_2 if snd_longer else -offset_2)",
          replace="        offset_2)", expect="fire", rule="C05.4"),
+    dict(name="pair-list-idiom", file="evo/core/sync.py",
+         find="            matching_indices_1.append(index_1)\n"
+              "            matching_indices_2.append(index_2)\n",
+         replace="            matching_indices_1.append((index_1, index_2))\n"
+                 "    matching_indices_2 = [b for _, b in matching_indices_1]\n"
+                 "    matching_indices_1 = [a for a, _ in matching_indices_1]\n",
+         expect="silent"),
+    dict(name="pair-list-swapped", file="evo/core/sync.py",
+         find="            matching_indices_1.append(index_1)\n"
+              "            matching_indices_2.append(index_2)\n",
+         replace="            matching_indices_1.append((index_1, index_2))\n"
+                 "    matching_indices_2 = [a for a, _ in matching_indices_1]\n"
+                 "    matching_indices_1 = [b for _, b in matching_indices_1]\n",
+         expect="fire", rule="C05.3"),
     dict(name="strict-tolerance", file="evo/core/sync.py",
          find="        if diffs[index_2] <= max_diff:",
          replace="        if diffs[index_2] < max_diff:",
